@@ -1,7 +1,7 @@
 """C07 - a search expression unfolds to exactly the typed searches its syntax denotes"""
-from ..rules import exc, search, memo, vocab, mutation, sidops
+from ..rules import config, exc, search, memo, vocab, mutation, sidops
 
-DECIDES = ("the error contract (only SpilException escapes unfold_search, R-EXC over the five unfolders); unfolder precedence and chaining (R-PIPE); de-duplication then removal of untyped / unapplied-query Sids on every path (R-FILTER), never while iterating the same list (R-ITERMUT); the or-sign is looked for in path and query (R-ORSCOPE); '/**' stands for zero or more levels, completed against the configured leaf key, once (R-EXPAND); leaf / narrowing / alias decisions read the configured tables (R-TBL); the memo key covers both flags (R-KEY). Also: simple_typing returns every matching type, early returns only for an untypable root (R-ALLTYPES); the cached typing lists are never mutated (R-MUT); the query text is decoded as a whole (R-QUERYROUTE).")
+DECIDES = ("the error contract (only SpilException escapes unfold_search, R-EXC over the five unfolders); unfolder precedence and chaining (R-PIPE); de-duplication then removal of untyped / unapplied-query Sids on every path (R-FILTER), never while iterating the same list (R-ITERMUT); the or-sign is looked for in path and query (R-ORSCOPE); '/**' stands for zero or more levels, completed against the configured leaf key, once (R-EXPAND); leaf / narrowing / alias decisions read the configured tables (R-TBL); the memo key covers both flags (R-KEY). Also: simple_typing returns every matching type, early returns only for an untypable root (R-ALLTYPES); the cached typing lists are never mutated (R-MUT); the query text is decoded as a whole (R-QUERYROUTE). leaf_keys has an entry for every basetype a root can have, and it is the last key of the deepest template below that root (R-LEAFKEYS); an alias is accepted wherever all its members are (R-ALIASVALUE).")
 DOES_NOT_DECIDE = "the denotation itself: which types, how many '*', which narrowing values (resolver evaluation)"
 
 
@@ -20,4 +20,6 @@ def rules(ctx, tier):
         lambda: sidops.rule_queryroute(ctx),
         lambda: sidops.rule_ret3(ctx),
         lambda: search.rule_narrow(ctx),
+        lambda: config.rule_leafkeys(ctx),
+        lambda: config.rule_aliasvalue(ctx),
     ]
